@@ -231,7 +231,8 @@ def check_popen_fork_failure(fails: int, n_extra: int, errno_kind: int) -> bool:
     pop.reduction = NS(dump=dump, _mk_inheritable=lambda fd: fd)
     pop.spawn = NS(get_preparation_data=lambda name, flag: {"mp_tracker_args": {"fd": mp_fd, "pid": 1}})
     pop.resource_tracker = NS(_resource_tracker=trk)
-    pop.util = NS(debug=lambda *a: None, info=lambda *a: None, Finalize=lambda obj, cb, args=(): log.add("finalize", args))
+    pop.util = NS(debug=lambda *a: None, info=lambda *a: None,
+                  Finalize=lambda obj, cb, args=(): log.add("finalize", args, set(opened)))
     pop.time = NS(sleep=lambda dt: log.add("sleep"), time=lambda: 0.0, monotonic=lambda: 0.0)
     fe.fork_exec = fork_exec
     popen = pop.Popen.__new__(pop.Popen)
@@ -259,6 +260,17 @@ def check_popen_fork_failure(fails: int, n_extra: int, errno_kind: int) -> bool:
     for k in range(len(attempts)):
         if 101 + 4 * k in opened or 102 + 4 * k in opened:
             return False  # child ends are closed in the parent after every attempt, failed or not
+    # every descriptor is closed at most once by direct calls, and a descriptor handed to a finalizer (closed again
+    # when the Popen object is collected) is neither closed directly nor already closed: a second close hits
+    # whatever re-used the number in the meantime (e.g. the sentinel of the next worker)
+    closed = [e[1] for e in log if e[0] == "close"]
+    if len(closed) != len(set(closed)):
+        return False
+    for e in log:
+        if e[0] == "finalize":
+            for fd in e[1]:
+                if fd in closed or fd not in e[2]:
+                    return False
     if raised:
         return len(attempts) >= 1
     return popen.pid == 777 and len(attempts) == fails + 1
